@@ -529,16 +529,10 @@ end
 section
 variable [RealLike R]
 
-/-- the paths of the `{var:}` operands of a case text have the documented shape -/
-def varsOk (rn : List Nat → Option (Num R)) (e : List Nat) : Prop :=
-  ∀ items : List (Item R),
-    Qentem.Expr.parseTop ({ readNum := rn } : ScanCfg R) (e ++ [34]) 0 e.length = .ok items →
-    ∀ v ∈ itemsVars items, PathOk (((e ++ [34]).drop v.off).take v.len)
-
 /-- the decision of a quoted case text scanned in place equals the reference `isTrue (evalText e)` -/
 theorem case_hit_quoted (cx : RCtx R) (cfg : ScanCfg R) (hg : cx.guardIndexRead = true)
     (hrn : cfg.readNum = cx.readNum) (st : RState)
-    (A0 e post : List Nat) (hc : cx.content = (A0 ++ [34]) ++ (e ++ [34]) ++ post) (hvo : varsOk cx.readNum e) :
+    (A0 e post : List Nat) (hc : cx.content = (A0 ++ [34]) ++ (e ++ [34]) ++ post) (hvo : varsOk cx.readNum e 34) :
     ((itemsAt cfg cx.content (A0.length + 1) (A0.length + 1 + e.length)).isEmpty =
       (match Qentem.Expr.parseTop ({ readNum := cx.readNum } : ScanCfg R) (e ++ [34]) 0 e.length with
        | .ok l => l.isEmpty | .error _ => true)) ∧
@@ -604,27 +598,27 @@ def exprOk (rn : List Nat → Option (Num R)) (e : List Nat) : Prop :=
 mutual
 def BT.caseOk (rn : List Nat → Option (Num R)) : BT → Prop
   | .segs _ => True
-  | .ifc e body tail => (tail = .fin ∨ exprOk rn e) ∧ varsOk rn e ∧ BTs.caseOk rn body ∧ BTail.caseOk rn tail
+  | .ifc e body tail => (tail = .fin ∨ exprOk rn e) ∧ varsOk rn e 34 ∧ BTs.caseOk rn body ∧ BTail.caseOk rn tail
 def BTs.caseOk (rn : List Nat → Option (Num R)) : BTs → Prop
   | .nil => True
   | .cons b r => BT.caseOk rn b ∧ BTs.caseOk rn r
 def BTail.caseOk (rn : List Nat → Option (Num R)) : BTail → Prop
   | .fin => True
   | .els body => BTs.caseOk rn body
-  | .elif e body tail => exprOk rn e ∧ varsOk rn e ∧ BTs.caseOk rn body ∧ BTail.caseOk rn tail
+  | .elif e body tail => exprOk rn e ∧ varsOk rn e 34 ∧ BTs.caseOk rn body ∧ BTail.caseOk rn tail
 end
 
 mutual
-def BT.pathOk : BT → Prop
-  | .segs l => ∀ s ∈ l, s.pathOk
-  | .ifc _ body tail => BTs.pathOk body ∧ BTail.pathOk tail
-def BTs.pathOk : BTs → Prop
+def BT.pathOk (rn : List Nat → Option (Num R)) : BT → Prop
+  | .segs l => ∀ s ∈ l, s.pathOk rn
+  | .ifc _ body tail => BTs.pathOk rn body ∧ BTail.pathOk rn tail
+def BTs.pathOk (rn : List Nat → Option (Num R)) : BTs → Prop
   | .nil => True
-  | .cons b r => BT.pathOk b ∧ BTs.pathOk r
-def BTail.pathOk : BTail → Prop
+  | .cons b r => BT.pathOk rn b ∧ BTs.pathOk rn r
+def BTail.pathOk (rn : List Nat → Option (Num R)) : BTail → Prop
   | .fin => True
-  | .els body => BTs.pathOk body
-  | .elif _ body tail => BTs.pathOk body ∧ BTail.pathOk tail
+  | .els body => BTs.pathOk rn body
+  | .elif _ body tail => BTs.pathOk rn body ∧ BTail.pathOk rn tail
 end
 
 mutual
@@ -659,7 +653,7 @@ theorem rneedTail_pos (t : BTail) : 1 ≤ rneedTail t := by
 /-- the decision of one quoted case that is an expression -/
 theorem one_case (cx : RCtx R) (cfg : ScanCfg R) (hg : cx.guardIndexRead = true)
     (hrn : cfg.readNum = cx.readNum) (st : RState)
-    (A0 e post : List Nat) (hc : cx.content = (A0 ++ [34]) ++ (e ++ [34]) ++ post) (hp : varsOk cx.readNum e)
+    (A0 e post : List Nat) (hc : cx.content = (A0 ++ [34]) ++ (e ++ [34]) ++ post) (hp : varsOk cx.readNum e 34)
     (hex : exprOk cfg.readNum e) :
     (itemsAt cfg cx.content (A0.length + 1) (A0.length + 1 + e.length)).isEmpty = false ∧
     ∃ v, evalExprs cx st (itemsAt cfg cx.content (A0.length + 1) (A0.length + 1 + e.length)) = .ok v ∧
@@ -712,7 +706,7 @@ theorem emit_emit (st : RState) (a b : List Nat) : emit (emit st a) b = emit st 
 mutual
 theorem render_bt (cx : RCtx R) (cfg : ScanCfg R) (hg : cx.guardIndexRead = true) (hrn : cfg.readNum = cx.readNum) :
     ∀ (b : BT) (more : List (Tag R)) (endO : Nat) (post B txt : List Nat) (st : RState) (fuel : Nat),
-      cx.content = B ++ (txt ++ (printBT b ++ post)) → b.ok → b.pathOk → b.caseOk cfg.readNum → rneedBT b ≤ fuel →
+      cx.content = B ++ (txt ++ (printBT b ++ post)) → b.ok → b.pathOk cfg.readNum → b.caseOk cfg.readNum → rneedBT b ≤ fuel →
       ∃ (B2 txt2 : List Nat) (st2 : RState), cx.content = B2 ++ (txt2 ++ post) ∧
         (B2 ++ txt2).length = (B ++ txt).length + (printBT b).length ∧
         st2.out ++ txt2 = st.out ++ (txt ++ expBT cx b) ∧ st2.items = st.items ∧
@@ -731,7 +725,7 @@ theorem render_bt (cx : RCtx R) (cfg : ScanCfg R) (hg : cx.guardIndexRead = true
     simp only [BT.pathOk] at hpath
     simp only [BT.caseOk] at hcase
     obtain ⟨hfirst, hvo, hcb, hct⟩ := hcase
-    have hpe : varsOk cx.readNum e := hrn ▸ hvo
+    have hpe : varsOk cx.readNum e 34 := hrn ▸ hvo
     simp only [rneedBT] at hf
     simp only [printBT] at hc
     have htp := printTail_pos tail
@@ -809,7 +803,7 @@ theorem render_bt (cx : RCtx R) (cfg : ScanCfg R) (hg : cx.guardIndexRead = true
     simp only [List.length_append, hlb]; omega
 theorem render_bts (cx : RCtx R) (cfg : ScanCfg R) (hg : cx.guardIndexRead = true) (hrn : cfg.readNum = cx.readNum) :
     ∀ (bs : BTs) (more : List (Tag R)) (endO : Nat) (post B txt : List Nat) (st : RState) (fuel : Nat),
-      cx.content = B ++ (txt ++ (printBTs bs ++ post)) → bs.ok → bs.pathOk → bs.caseOk cfg.readNum → rneedBTs bs ≤ fuel →
+      cx.content = B ++ (txt ++ (printBTs bs ++ post)) → bs.ok → bs.pathOk cfg.readNum → bs.caseOk cfg.readNum → rneedBTs bs ≤ fuel →
       ∃ (B2 txt2 : List Nat) (st2 : RState), cx.content = B2 ++ (txt2 ++ post) ∧
         (B2 ++ txt2).length = (B ++ txt).length + (printBTs bs).length ∧
         st2.out ++ txt2 = st.out ++ (txt ++ expBTs cx bs) ∧ st2.items = st.items ∧
@@ -836,7 +830,7 @@ theorem render_bts (cx : RCtx R) (cfg : ScanCfg R) (hg : cx.guardIndexRead = tru
       rw [show fuel + (rcostBT b + rcostBTs r) = fuel + rcostBTs r + rcostBT b by omega, g5, ← g2, h5]
 theorem render_tail (cx : RCtx R) (cfg : ScanCfg R) (hg : cx.guardIndexRead = true) (hrn : cfg.readNum = cx.readNum) :
     ∀ (t : BTail) (Pre post : List Nat) (st : RState) (fuel : Nat),
-      cx.content = Pre ++ (printTail t ++ post) → t.ok → t.pathOk → t.caseOk cfg.readNum → rneedTail t ≤ fuel →
+      cx.content = Pre ++ (printTail t ++ post) → t.ok → t.pathOk cfg.readNum → t.caseOk cfg.readNum → rneedTail t ≤ fuel →
       ifCases cx fuel (casesT cfg cx.content Pre.length t) st = .ok (emit st (expTail cx t))
   | .fin, Pre, post, st, fuel, hc, _, _, _, hf => by
     simp only [rneedTail] at hf
@@ -867,7 +861,7 @@ theorem render_tail (cx : RCtx R) (cfg : ScanCfg R) (hg : cx.guardIndexRead = tr
     simp only [BTail.pathOk] at hpath
     simp only [BTail.caseOk] at hcase
     obtain ⟨hex, hvo, hcb, hct⟩ := hcase
-    have hpe : varsOk cx.readNum e := hrn ▸ hvo
+    have hpe : varsOk cx.readNum e 34 := hrn ▸ hvo
     simp only [rneedTail] at hf
     simp only [printTail] at hc
     obtain ⟨f, rfl⟩ : ∃ f, fuel = f + 1 := ⟨fuel - 1, by omega⟩
@@ -1023,7 +1017,7 @@ theorem parse_tree (cfg : ScanCfg R) (bs : BTs) (hok : bs.ok)
 /-- rendering the implied tags of a block tree prints the documented expansion -/
 theorem renderTop_tree [RealLike R] (cx : RCtx R) (cfg : ScanCfg R) (hg : cx.guardIndexRead = true)
     (hrn : cfg.readNum = cx.readNum) (bs : BTs) (hc : cx.content = printBTs bs)
-    (hok : bs.ok) (hpath : bs.pathOk) (hcase : bs.caseOk cfg.readNum) (fuel : Nat) (hf : rneedBTs bs ≤ fuel) :
+    (hok : bs.ok) (hpath : bs.pathOk cfg.readNum) (hcase : bs.caseOk cfg.readNum) (fuel : Nat) (hf : rneedBTs bs ≤ fuel) :
     renderTop cx (tagsBTs cfg cx.content 0 bs) (fuel + rcostBTs bs) = .ok (expBTs cx bs) := by
   have hr := render_bts cx cfg hg hrn bs [] cx.content.length [] [] [] {} fuel (by simpa using hc) hok hpath hcase hf
   simp only [List.append_nil, List.nil_append, List.length_nil, Nat.zero_add] at hr
